@@ -42,6 +42,11 @@ RecvOK ==
     [] op = "delayeach" ->
          /\ nrecv + 1 <= Len(emits) /\ emits[nrecv + 1].k = Ev.k /\ emits[nrecv + 1].v = Ev.v
          /\ (Ev.k = "N" => Ev.u >= emits[nrecv + 1].u + d)
+    [] op = "ctxtimeout" ->
+         \* ContextWithTimeout(d) passes everything through; the context it gives value v expires d after v passed, so a value that
+         \* arrives with an EXPIRED context (i = 1) arrives at least d after it was emitted - however long ago the pipeline was built (C12)
+         /\ nrecv + 1 <= Len(emits) /\ emits[nrecv + 1].k = Ev.k /\ emits[nrecv + 1].v = Ev.v
+         /\ (Ev.k = "N" /\ Ev.i = 1) => Ev.u >= emits[nrecv + 1].u + d
     [] op = "timeout" ->
          IF Ev.k = "E" /\ Ev.v = TimeoutCause
            THEN /\ ~srcTerm                                     \* never once the source has terminated
